@@ -76,3 +76,25 @@ def head_until(modname, qualname, marker, params, ret, name='_sliced_head'):
     loc = {}
     exec(compile(mod, fn, 'exec'), ns, loc)
     return loc[name], ast.unparse(mod)
+
+
+def loop_body(modname, qualname, params, ret, name='_sliced_body', which=0):
+    """function(params...) executing ONE iteration of the `which`-th while loop found in `qualname` (its body as
+    it is in the current source), then returning `ret`.  Also returns the loop test's source for the harness."""
+    src, fn = _source(modname)
+    tree = ast.parse(src)
+    f = _find_func(tree, qualname)
+    loops = [n for n in ast.walk(f) if isinstance(n, ast.While)]
+    loops.sort(key=lambda n: n.lineno)
+    if len(loops) <= which:
+        raise core.EngineError('slicer: no while loop #%d in %s.%s' % (which, modname, qualname))
+    w = loops[which]
+    body = list(w.body) + [ast.parse('return ' + ret).body[0]]
+    args = ast.parse('def %s(%s): pass' % (name, params)).body[0].args
+    new = ast.FunctionDef(name=name, args=args, body=body, decorator_list=[], returns=None, type_comment=None)
+    mod = ast.Module(body=[new], type_ignores=[])
+    ast.fix_missing_locations(mod)
+    ns = loader.mod(modname).__dict__
+    loc = {}
+    exec(compile(mod, fn, 'exec'), ns, loc)
+    return loc[name], ast.unparse(w.test), ast.unparse(mod)
